@@ -162,6 +162,29 @@ type Rig struct {
 	// Leftover holds the stacks of server-side go-smtp goroutines that were
 	// still alive after Shutdown's bounded wait (nil = none).
 	Leftover []string
+	// graceful is the result channel of a Server.Shutdown begun by
+	// BeginShutdown (nil = none)
+	graceful chan error
+}
+
+// BeginShutdown starts a graceful Server.Shutdown (no deadline) in the
+// background and returns once the server has stopped accepting (its listener
+// is closed): from then on the server is "shutting down" while the
+// connections already open stay served until they end. Rig.Shutdown joins it.
+// It returns false if the listener is still open when the watchdog expires.
+func (r *Rig) BeginShutdown() bool {
+	if r.graceful == nil {
+		r.graceful = make(chan error, 1)
+		go func() { r.graceful <- r.Srv.Shutdown(context.Background()) }()
+	}
+	deadline := time.Now().Add(Watchdog)
+	for !r.L.IsClosed() {
+		if time.Now().After(deadline) {
+			return false
+		}
+		time.Sleep(20 * time.Microsecond)
+	}
+	return true
 }
 
 // ImplicitTLS reports whether connections are under TLS from the first octet.
@@ -228,6 +251,14 @@ func (r *Rig) Shutdown() bool {
 	case <-r.serve:
 	case <-time.After(Watchdog):
 		return false
+	}
+	if r.graceful != nil {
+		select {
+		case <-r.graceful:
+		case <-time.After(Watchdog):
+			return false
+		}
+		r.graceful = nil
 	}
 	// Delivery goroutines of chunked transfers are not joined by Shutdown;
 	// wait until every callback that began has returned.
